@@ -12,7 +12,7 @@ package reference_criterion
 //@   ensures result != nil && exists k int :: 0 <= k && k < len(*rankedCriteria) && *result == (*rankedCriteria)[k].Criterion
 
 //@ func FindCriterionInRange
-//@   property C18
+//@   property C18 C01 C07 C09 C19 C20
 //@   requires len(*rankedCriteria) > 0
 //@   ensures [member] result != nil && exists k int :: 0 <= k && k < len(*rankedCriteria) && *result == (*rankedCriteria)[k].Criterion
 //@   ensures [first_reaching] (exists k int :: 0 <= k && k < len(*rankedCriteria) && *result == (*rankedCriteria)[k].Criterion
@@ -22,19 +22,19 @@ package reference_criterion
 //@   loop 1 invariant [below] forall j int :: 0 <= j && j < iter ==> cum(*rankedCriteria, j + 1) < expectedCumulatedWeight
 
 //@ func (*ImportanceRatioReferenceCriterionProvider).Provide
-//@   property C18
+//@   property C18 C01 C07 C09 C19 C20
 //@   requires len(*rankedCriteria) > 0
 //@   ensures [member] result != nil && exists k int :: 0 <= k && k < len(*rankedCriteria) && *result == (*rankedCriteria)[k].Criterion
 //@   loop 1 invariant [sum] total == cum(*rankedCriteria, iter)
 
 //@ func (*RandomUniformReferenceCriterionProvider).Provide
-//@   property C18
+//@   property C18 C01 C07 C09 C19 C20
 //@   fnparam generator ensures 0.0 <= result && result < 1.0
 //@   requires len(*rankedCriteria) > 0
 //@   ensures [member] result != nil && exists k int :: 0 <= k && k < len(*rankedCriteria) && *result == (*rankedCriteria)[k].Criterion
 
 //@ func (*RandomWeightedReferenceCriterionProvider).Provide
-//@   property C18
+//@   property C18 C01 C07 C09 C19 C20
 //@   requires len(*rankedCriteria) > 0
 //@   ensures [member] result != nil && exists k int :: 0 <= k && k < len(*rankedCriteria) && *result == (*rankedCriteria)[k].Criterion
 //@   loop 2 invariant [ctx] fresh(mappedWeights) && len(mappedWeights) == len(*rankedCriteria)
@@ -45,29 +45,29 @@ package reference_criterion
 //@ ifacemethod ReferenceCriterionFactory.Identifier
 //@   ensures result == factoryName(self)
 //@ func (*ImportanceRatioReferenceCriterionManager).Identifier
-//@   property C18 C19 C20
+//@   property C18 C19 C20 C01 C03 C04 C05 C06 C07 C08 C09 C11 C12 C13 C14 C15 C16 C17
 //@   nopanic
 //@   ensures [name] result == "importanceRatio"
 //@ func (*RandomUniformReferenceCriterionManager).Identifier
-//@   property C18 C19 C20
+//@   property C18 C19 C20 C01 C03 C04 C05 C06 C07 C08 C09 C11 C12 C13 C14 C15 C16 C17
 //@   nopanic
 //@   ensures [name] result == "randomUniform"
 //@ func (*RandomWeightedReferenceCriterionManager).Identifier
-//@   property C18 C19 C20
+//@   property C18 C19 C20 C01 C03 C04 C05 C06 C07 C08 C09 C11 C12 C13 C14 C15 C16 C17
 //@   nopanic
 //@   ensures [name] result == "randomWeighted"
 // every request gets its own provider object (the parameters are decoded into it)
 //@ func (*ImportanceRatioReferenceCriterionManager).NewProvider
-//@   property C18 C19 C09
+//@   property C18 C19 C09 C01 C07 C20
 //@   nopanic
 //@   ensures [new_object_each_time] typeis(result, *ImportanceRatioReferenceCriterionProvider) && fresh(result.(*ImportanceRatioReferenceCriterionProvider))
 //@ func (*RandomUniformReferenceCriterionManager).NewProvider
-//@   property C18 C19 C09
+//@   property C18 C19 C09 C01 C07 C20
 //@   nopanic
 //@   ensures [new_object_each_time] typeis(result, *RandomUniformReferenceCriterionProvider) && fresh(result.(*RandomUniformReferenceCriterionProvider))
 //@             && result.(*RandomUniformReferenceCriterionProvider).generator == i.RandomFactory
 //@ func (*RandomWeightedReferenceCriterionManager).NewProvider
-//@   property C18 C19 C09
+//@   property C18 C19 C09 C01 C07 C20
 //@   nopanic
 //@   ensures [new_object_each_time] typeis(result, *RandomWeightedReferenceCriterionProvider) && fresh(result.(*RandomWeightedReferenceCriterionProvider))
 //@ func (*ReferenceCriteriaManager).factory
